@@ -367,7 +367,8 @@ Definition getattr_env (s : state) (h oh : N) (x : session) (rest ptr cnt : N) :
      (C_GetAttributeValue.set_session_getState (sess_state s x));
      (C_GetAttributeValue.set_session_getToken 1);
      (C_GetAttributeValue.set_this_isInitialised 1);
-     (C_GetAttributeValue.set_zz_rest rest);
+     (C_GetAttributeValue.set_newP11Object_at1 (fun _ _ => 0));
+     (C_GetAttributeValue.set_p11object_loadTemplate (fun _ _ _ => rest));
      (C_GetAttributeValue.set_hSession h);
      (C_GetAttributeValue.set_hObject oh);
      (C_GetAttributeValue.set_pTemplate ptr);
@@ -382,7 +383,8 @@ Definition setattr_env (s : state) (h oh : N) (x : session) (rest ptr cnt : N) :
      (C_SetAttributeValue.set_session_getState (sess_state s x));
      (C_SetAttributeValue.set_session_getToken 1);
      (C_SetAttributeValue.set_this_isInitialised 1);
-     (C_SetAttributeValue.set_zz_rest rest);
+     (C_SetAttributeValue.set_newP11Object_at1 (fun _ _ => 0));
+     (C_SetAttributeValue.set_p11object_saveTemplate (fun _ _ _ _ _ => rest));
      (C_SetAttributeValue.set_hSession h);
      (C_SetAttributeValue.set_hObject oh);
      (C_SetAttributeValue.set_pTemplate ptr);
